@@ -113,6 +113,7 @@ def r71_73(ctx, prog):
         return
     lit_idx = [v['idx'] for v in pt['variants'] if v['name'] == 'Literal'][0]
     starters, string_starters = set(), set()
+    plain_fail = []
     n_comment = n_fusion = 0
     err_ok = True
     for ch, ret, eff, world in paths:
@@ -141,6 +142,10 @@ def r71_73(ctx, prog):
                 ctx.check(good, 'R7.1', 'no-comment-path[%s]' % ch, 'slash', 'a `/` that starts no comment is the division operator (pushes %s)' % [fmt(a[1]) for a in after_push], span=f.span)
         if 'parse_string_literal' in names:
             string_starters.add(ch)
+        # ---- a character that starts neither a comment nor a string is turned into a partial token and the scan goes on: it never
+        # fails and never ends the scan, whatever follows it (a `*` directly before a comment is still the operator `*`)
+        if 'try_skip_comment' not in names and 'parse_string_literal' not in names and ret[0] != 'backedge' and ret != ('diverge',):
+            plain_fail.append('%r -> %s' % (ch, fmt(ret)[:70]))
         # ---- fusion of adjacent word characters (no comment, no string)
         if 'try_skip_comment' in names or 'parse_string_literal' in names or ret[0] != 'backedge':
             continue
@@ -164,6 +169,7 @@ def r71_73(ctx, prog):
             ctx.check(good, 'R7.3', inst, 'no-fuse', 'any other combination pushes the partial token as its own element (fused %d, pushed %s)' % (len(fused), [fmt(a[1])[:50] for a in pushed]), span=f.span)
     ctx.floor('R7.1', 'comment_paths', n_comment, 2)
     ctx.check(err_ok, 'R7.1', 'comment-error', 'error', 'an error from comment skipping (unterminated `/*`) is returned unchanged and nothing is pushed', span=f.span)
+    ctx.check(not plain_fail, 'R7.1', 'plain-character', 'char-error', 'a character that starts neither a comment nor a string always becomes a partial token and the scan continues (deviations: %s)' % plain_fail[:3], span=f.span)
     ctx.check(sorted(starters) == ['/'], 'R7.1', 'comment-start', 'starter', 'comment skipping is attempted only after a `/` (found after %s)' % sorted(starters), span=f.span)
     ctx.check(sorted(string_starters) == ['"'], 'R7.5', 'string-start', 'starter', 'the string scanner is entered exactly at a `"` (found at %s)' % sorted(string_starters), span=f.span)
     ctx.floor('R7.3', 'fusion_cases', n_fusion, 16)
